@@ -620,6 +620,41 @@ impl<'tcx> Cx<'tcx> {
         o.push(("blocks", J::A(blocks)));
         J::O(o)
     }
+
+    /// string / integer literals inside each promoted constant body of `def`
+    fn promoted(&self, def: DefId) -> J {
+        let tcx = self.tcx;
+        let mut out = vec![];
+        if let Some(ld) = def.as_local() {
+            for body in tcx.promoted_mir(ld).iter() {
+                let mut lits = vec![];
+                for data in body.basic_blocks.iter() {
+                    for st in &data.statements {
+                        if let StatementKind::Assign(b) = &st.kind {
+                            let mut ops: Vec<&Operand<'tcx>> = vec![];
+                            match &b.1 {
+                                Rvalue::Use(op, _) => ops.push(op),
+                                Rvalue::Cast(_, op, _) => ops.push(op),
+                                Rvalue::Aggregate(_, xs) => {
+                                    for x in xs.iter() {
+                                        ops.push(x)
+                                    }
+                                }
+                                _ => {}
+                            }
+                            for op in ops {
+                                if let Operand::Constant(c) = op {
+                                    lits.push(self.constant(def, &c.const_));
+                                }
+                            }
+                        }
+                    }
+                }
+                out.push(J::A(lits));
+            }
+        }
+        J::A(out)
+    }
 }
 
 fn _unused(_: BasicBlock, _: Local) {}
@@ -649,7 +684,11 @@ impl Callbacks for Dump {
                 continue;
             }
             let body = tcx.optimized_mir(def);
-            fns.push(cx.body(def, body));
+            let mut j = cx.body(def, body);
+            if let J::O(ref mut v) = j {
+                v.push(("promoted", cx.promoted(def)));
+            }
+            fns.push(j);
         }
         // ADT tables: every local struct/enum with variants and field names/types
         let mut adts = vec![];
